@@ -36,6 +36,8 @@ def main(argv=None):
     w.add_argument('--step', type=int); w.add_argument('--out')
     w.add_argument('--timeout', type=int, default=600)
     w.add_argument('--light', action='store_true')
+    w.add_argument('--budget', type=int, default=0)
+    w.add_argument('--stall', type=float, default=0)
     e = sub.add_parser('_events')
     e.add_argument('--prop'); e.add_argument('--tier'); e.add_argument('--seed', type=int)
     e.add_argument('--run', type=int)
